@@ -225,6 +225,9 @@ impl W1Scenario {
         if serde_json::to_string(&case.problem["fleet"]).map(|t| t.contains("\"reloads\"")).unwrap_or(false) {
             sig.push("reloads");
         }
+        if case.problem["fleet"].get("resources").is_some() {
+            sig.push("shared-resource");
+        }
         let sig = sig.join("|");
         rec.issues = v
             .issues
